@@ -408,23 +408,51 @@ def chain_shape(t: ast.Module) -> dict:
     return rec
 
 
+def _returns_context_only(stmts: list[ast.stmt]) -> bool:
+    """Every path through `stmts` ends in `return AuthContext(...)`: only `if` (on the gate's claims) and `return`
+    statements, the last one a `return`; the only calls are `AuthContext(...)` and `claims.get(...)` — nothing is
+    raised, nothing else is invoked, so for the 401 contract the branch is "the gate passed -> the request passes"."""
+    if not stmts or not isinstance(stmts[-1], ast.Return):
+        return False
+    for s in stmts:
+        if isinstance(s, ast.Return):
+            if not (isinstance(s.value, ast.Call) and ast.unparse(s.value.func) == "AuthContext"):
+                return False
+        elif isinstance(s, ast.If):
+            if not _returns_context_only(s.body) or (s.orelse and not _returns_context_only(s.orelse)):
+                return False
+        else:
+            return False
+        for n in ast.walk(s):
+            if isinstance(n, ast.Call) and ast.unparse(n.func) not in ("AuthContext", "claims.get"):
+                return False
+    return True
+
+
 def require_all_shape(t: ast.Module) -> dict:
     outer = _func(t, "require_all")
     inner = _func(outer, "authenticate")
     stmts = _body(inner)
     ok = False
+    gate_only_returns: list[str] = []
     try:
         c, i, x, m, m2, r = stmts
         ok = (
             ast.unparse(c) == "claims = gate(req)"
             and isinstance(i, ast.If)
             and ast.unparse(i.test) == "inner is None"
-            and len(i.body) == 1
-            and isinstance(i.body[0], ast.Return)
+            and _returns_context_only(i.body)
             and not i.orelse
             and ast.unparse(x) == "ctx = inner(req)"
             and isinstance(r, ast.Return)
         )
+        # nothing is raised by the composition itself
+        ok = ok and not any(isinstance(n, ast.Raise) for n in ast.walk(inner))
+        if ok:
+            for n in sorted((x for x in ast.walk(i) if isinstance(x, ast.Return)), key=lambda x: x.lineno):
+                if isinstance(n.value, ast.Call):
+                    kw = {k.arg: ast.unparse(k.value) for k in n.value.keywords}
+                    gate_only_returns.append("authenticated=" + kw.get("authenticated", "?"))
         # no try/except anywhere: whatever the gate or the credential raises propagates unchanged
         ok = ok and not any(isinstance(n, (ast.Try, ast.With)) for n in ast.walk(inner))
     except ValueError:
@@ -435,7 +463,7 @@ def require_all_shape(t: ast.Module) -> dict:
     gate_ok = "self.vgi_proxy_headers = tuple(proxy_headers)" in gate_init and [
         ast.unparse(s) for s in _body(_func(gate_cls, "__call__"))
     ] == ["return self._fn(req)"]
-    return {"recognised": ok and declares and gate_ok}
+    return {"recognised": ok and declares and gate_ok, "gate_only_returns": gate_only_returns}
 
 
 # ------------------------------------------------------------------------------------------ _middleware.py
@@ -839,8 +867,11 @@ def chainDetailPost : String := {q(ch["post"])}
 def chainRejectsEmpty : Bool := {b(ch["rejectsEmpty"])}
 def chainRejectsGate : Bool := {b(ch["rejectsGate"])}
 
-/-- `require_all.authenticate`: gate first, no handler around gate or credential; declarations of both carried forward -/
+/-- `require_all.authenticate`: gate first, no handler around gate or credential, nothing raised by the composition
+    itself; without a credential every path after the gate returns an `AuthContext`; declarations of both carried forward -/
 def requireAllRecognised : Bool := {b(ra["recognised"])}
+/-- the contexts the gate-only branch returns (every path returns one; none raises) -/
+def requireAllGateOnlyReturns : List String := {qlist(ra["gate_only_returns"])}
 
 /-- `_AuthMiddleware.process_request`: the `except` clauses around `self._authenticate(req)` in order: (classes, falcon error raised) -/
 def middlewareRecognised : Bool := {b(mw["recognised"])}
